@@ -258,6 +258,34 @@ class Monotone(Kernel):
         ob.twin("twin.later_tally_never_passes", znot(res[1][1]))
 
 
+class MonotoneYes(Kernel):
+    """further Yes weight never un-passes a proposal, whether or not it has expired (the second monotonicity fact the
+    contract-level VCs assume: it lets them decide paths on which a contract admits ballots it should have refused)"""
+
+    def __init__(self, kind, expired, nine):
+        self.kind, self.expired, self.nine = kind, expired, nine
+        self.name = f"C04.monotone_yes.{kind}.{'expired' if expired else 'open'}.{'9dec' if nine else '18dec'}"
+
+    def run(self, I, ctx, ob):
+        prop, blk, d = mk_proposal(I, ctx, self.kind, self.expired, self.nine)
+        y = ctx.fresh_int("more.yes", 0, U64)
+        ctx.assume(d["yes"] + d["no"] + d["ab"] + d["veto"] + y <= d["total"])
+        prop2 = prop.with_("votes", Struct("Votes", [d["yes"] + y, d["no"], d["ab"], d["veto"]], ["yes", "no", "abstain", "veto"]))
+        res = []
+        for p_ in (prop, prop2):
+            res.append(call_fn(I, ctx, "Proposal::is_passed", [Ref(Cell("prop", p_)), Ref(Cell("blk", blk))]))
+        ob.outcome = "/".join(r[0] for r in res)
+        d["h"], d["eh"] = blk.get("height"), prop.get("expires").fields[0]
+        d["predicted"] = {"panic": any(r[0] == "panic" for r in res)}
+        if res[0][0] == "ret": d["predicted"]["is_passed"] = res[0][1]
+        ob.info["kernel"] = d
+        ob.require("C04.no_panic_for_valid_thresholds", not d["predicted"]["panic"])
+        if d["predicted"]["panic"]: return
+        ob.require("C04.passed_persists_under_more_yes_weight", zimplies(res[0][1], res[1][1]))
+        ob.witness("persisting_pass_more_yes", zand(res[0][1], y > 0))
+        ob.twin("twin.more_yes_never_passes", znot(res[1][1]))
+
+
 class KaniCross(VC):
     """second engine: Kani/CBMC on the compiled kernel (path dependency on /repo, so it always sees the current tree).
     AbsoluteCount over all u64 tallies against the documented formula, and `never passed without Yes` for every threshold kind.
@@ -299,6 +327,8 @@ def vcs(tier):
             if k != "AbsoluteCount" and exp: out.append(Decide(k, exp, False))
         out.append(CurrentStatus(k))
         out.append(Monotone(k, True))
+        out += [MonotoneYes(k, e, True) for e in (True, False)]
+        if k != "AbsoluteCount" and tier == "thorough": out += [MonotoneYes(k, e, False) for e in (True, False)]
         if k != "AbsoluteCount" and tier == "thorough": out.append(Monotone(k, False))
     if tier == "thorough": out.append(KaniCross())
     return out
@@ -311,3 +341,5 @@ OUTSIDE = ("early-decision soundness is shown for thresholds with <= 9 decimals 
            "expired decision is shown to be within one vote and never stricter; Expiration kinds other than AtHeight reach the kernel only through is_expired")
 ASSUMPTIONS = ["thresholds are valid (Threshold::validate passed at instantiate): AbsoluteCount 1..total, percentages in [0.5,1], quorum in (0,1]",
                "tally does not exceed total weight (C06's invariant)", "Uint128::mul_floor(Decimal) = floor(a*atomics/1e18), panics above u128"]
+
+SECOND_SOLVER = True      # thorough tier: every non-trivial obligation is re-discharged with cvc5
